@@ -40,6 +40,7 @@ pub mod command;
 mod extensions;
 mod llm;
 
+#[derive(Clone)]
 pub struct Server {
     base_path: BasePath,
     database: Database,
@@ -47,6 +48,7 @@ pub struct Server {
     configuration: Configuration,
 }
 
+#[derive(Clone)]
 pub struct BasePath {
     base_path: String,
 }
